@@ -13,7 +13,7 @@ import (
 // active, clear its leaves, delete its containers/lists, write the new case),
 // any step of which may fail.
 
-var c09Stores = []string{"nacc", "rmap", "nmap", "nstruct", "ctl", "rmap", "nstruct"}
+var c09Stores = []string{"nstruct0", "nacc", "rmap", "nmap", "nstruct", "ctl", "rmap", "nstruct"}
 
 func c09Gen(r *kit.Rng) *histScenario {
 	sk := store.Variant(r, c09Stores[r.Intn(len(c09Stores))])
